@@ -856,6 +856,12 @@ def suite_handoff(ctx, can_run_model):
     rng = random.Random(ctx.seed * 1000003 + 61)
     n = ctx.scale(300, 12000)
     raw = [gen_handoff.gen_scenario(rng, "h%d-%d" % (ctx.seed, j)) for j in range(n)]
+    if not ctx.widen:
+        # known-finding witnesses and minimised failures first
+        for w in load_corpus("HANDOFF"):
+            seed = int([l for l in w[2] if l.startswith("SEED")][0].split()[1])
+            raw.insert(0, (w, {"witness": w[1], "corrupt": 1.0 if "f13" in w[1] else 0.0, "timers": False, "drop": 0.0, "dupl": 0.0,
+                               "rand_delay": False, "override": "f10" in w[1]}, seed))
     scs = fill_draws(raw)
     # twins that never create a checker: the continuation must be identical (C09: the source System is untouched)
     twins = []
@@ -951,6 +957,49 @@ def suite_handoff(ctx, can_run_model):
 
 KV_PV = re.compile(r"pv=(\d+)")
 
+def inverted_timers(il):
+    """In the simulator prefix of a hand-off: two timers of one process, both pending at the snapshot, where the one
+    set LATER fires strictly EARLIER (so insertion order and real firing order disagree)."""
+    import struct
+    f = lambda b: struct.unpack("<d", struct.pack("<Q", int(b)))[0]
+    pend = {}
+    order = []
+    if "SNAPSHOT" not in il:
+        return False
+    for l in il[:il.index("SNAPSHOT")]:
+        t = l.split()
+        if l.startswith("LOG TimerSet "):
+            # LOG TimerSet <time> <id> <name> <node> <proc> <delay>
+            pend[t[3]] = (t[6], f(t[2]) + f(t[7]), len(order))
+            order.append(t[3])
+        elif l.startswith(("LOG TimerFired ", "LOG TimerCancelled ")):
+            pend.pop(t[3], None)
+        elif l.startswith("LOG NodeCrashed"):
+            pend = {}
+    items = sorted(pend.values(), key=lambda x: x[2])
+    for i in range(len(items)):
+        for j in range(i + 1, len(items)):
+            if items[i][0] == items[j][0] and items[j][1] < items[i][1]:
+                return True
+    return False
+
+
+F15_WITNESS = {
+    "sysl": [
+        "NODE 0 0", "NODE 1 0",
+        "PROC 0 1 1 0 0 3", "ROW 0 0 ", "ROW 0 0 ",
+        "ROW 0 2 S 0 1 65 5 112 108 97 105 110 S 0 1 65 29 123 34 97 34 58 32 34 34 44 32 34 98 34 58 32 34 120 121 34 44 32 34 99 34 58 32 34 34 125",
+        "PROC 1 1 2 0 0 3",
+        "ROW 1 2 S 1 1 65 29 123 34 97 34 58 32 34 34 44 32 34 98 34 58 32 34 120 121 34 44 32 34 99 34 58 32 34 34 125 T 1 4611686018427387904 1",
+        "ROW 1 1 S 1 1 65 29 123 34 97 34 58 32 34 34 44 32 34 98 34 58 32 34 120 121 34 44 32 34 99 34 58 32 34 34 125",
+        "ROW 1 3 T 1 4607182418800017408 1 S 0 1 65 5 112 108 97 105 110 T 0 0 1",
+        "NET 0 0 0 4607182418800017408 4611686018427387904",
+    ],
+    "placement": [0, 1],
+    "ops": [["LOCAL", 1, "1 65 5 112 108 97 105 110"], ["LOCAL", 1, "1 65 5 112 108 97 105 110"]],
+}
+
+
 # ---------------------------------------------------------------------------------------------------
 # C15 "routes agree": operations performed in the simulator before the snapshot vs in the preliminary callback
 
@@ -960,24 +1009,8 @@ def suite_routes(ctx, can_run_model):
     n = ctx.scale(120, 5000)
     pairs = []
     scs = []
-    for j in range(n):
-        feat = gen_mc.gen_features(rng)
-        feat.update({"clock": False, "drop": False, "dupl": False, "corrupt": False, "stateless": False, "mf": False,
-                     "override": False})
-        sysl, nnodes, nprocs, placement = gen_mc.gen_system(rng, feat)
-        ops = []
-        crashed = set()
-        if rng.random() < 0.4:
-            ops.append(("NET", gen_mc.gen_netop(rng, nnodes)))
-        for _ in range(rng.choice([1, 2, 2, 3])):
-            p = rng.randrange(nprocs)
-            if placement[p] not in crashed:
-                ops.append(("LOCAL", p, gen_mc.gen_msg(rng)))
-            if rng.random() < 0.15:
-                nd = rng.randrange(nnodes)
-                crashed.add(nd)
-                ops.append(("CRASH", nd))
-        ops = [o for o in ops if not (o[0] == "NET" and o[1].split()[0] in ("DROPRATE", "DUPLRATE", "CORRUPTRATE", "RESET"))]
+
+    def route_pair(tag, sysl, placement, ops, feat):
         preds = ["PRED INV NONE", "PRED GOAL NOEVENTS", "PRED PRUNE NONE", "PRED COLLECT NONE"]
         run = "RUN BFS FULL 0 %d" % gen_mc.FUEL
         # route (b): everything in the callback of a checker created from the untouched system
@@ -989,7 +1022,7 @@ def suite_routes(ctx, can_run_model):
                 cb.append("CB LOCAL %d %d %s" % (placement[o[1]], o[1], o[2]))
             else:
                 cb.append("CB CRASH %d" % o[1])
-        sc_b = ("MC", "rb%d-%d" % (ctx.seed, j), list(sysl) + cb + preds + [run])
+        sc_b = ("MC", "rb" + tag, list(sysl) + cb + preds + [run])
         # route (a): the same operations in the simulator, then the snapshot
         sim = ["SEED 1"]
         for l in sysl:
@@ -1017,9 +1050,33 @@ def suite_routes(ctx, can_run_model):
             else:
                 sim.append("OP CRASH %d" % o[1])
         clock = [l for l in sysl if l.startswith("CLOCK")]
-        sc_a = ("HANDOFF", "ra%d-%d" % (ctx.seed, j), sim + ["SNAPSHOT"] + clock + preds + [run, "CONTINUE"])
+        sc_a = ("HANDOFF", "ra" + tag, sim + ["SNAPSHOT"] + clock + preds + [run, "CONTINUE"])
         pairs.append((sc_a, sc_b, feat))
-        scs += [sc_a, sc_b]
+        scs.extend([sc_a, sc_b])
+
+    if not ctx.widen:
+        # witness of the known finding F15 (timers of one process set at one instant in decreasing-delay order)
+        route_pair("-f15-witness", F15_WITNESS["sysl"], F15_WITNESS["placement"],
+                   [tuple(o) for o in F15_WITNESS["ops"]], {"witness": "f15"})
+    for j in range(n):
+        feat = gen_mc.gen_features(rng)
+        feat.update({"clock": False, "drop": False, "dupl": False, "corrupt": False, "stateless": False, "mf": False,
+                     "override": False})
+        sysl, nnodes, nprocs, placement = gen_mc.gen_system(rng, feat)
+        ops = []
+        crashed = set()
+        if rng.random() < 0.4:
+            ops.append(("NET", gen_mc.gen_netop(rng, nnodes)))
+        for _ in range(rng.choice([1, 2, 2, 3])):
+            p = rng.randrange(nprocs)
+            if placement[p] not in crashed:
+                ops.append(("LOCAL", p, gen_mc.gen_msg(rng)))
+            if rng.random() < 0.15:
+                nd = rng.randrange(nnodes)
+                crashed.add(nd)
+                ops.append(("CRASH", nd))
+        ops = [o for o in ops if not (o[0] == "NET" and o[1].split()[0] in ("DROPRATE", "DUPLRATE", "CORRUPTRATE", "RESET"))]
+        route_pair("%d-%d" % (ctx.seed, j), sysl, placement, ops, feat)
     raw = [((s[0], s[1], s[2]), {}, 1) for s in scs]
     scs2 = fill_draws(raw)
     impl = vlib.run_impl(scs2, "rt-impl")
@@ -1046,6 +1103,9 @@ def suite_routes(ctx, can_run_model):
                                              "detail": "snapshot route visits %d process-visible states, callback route %d (%d differ)" % (
                                                  len(pa), len(pb), len(pa ^ pb)),
                                              "scenario": vlib.scenario_text(by[sc_a[1]]), "impl": impl.get(sc_a[1], [])[:20],
+                                             "callback_route_scenario": vlib.scenario_text(by[sc_b[1]]),
+                                             "snapshot_subset_of_callback": pa < pb,
+                                             "inverted_timers": inverted_timers(impl.get(sc_a[1], [])),
                                              "seed": ctx.seed, "suite": "ROUTES", "feat": feat})
             if len(pa) >= 4:
                 ctx.nontrivial.add(sc_hash(sc_a))
@@ -1252,6 +1312,14 @@ KNOWN_CLASS = {
     "F11_depth_current_run": lambda mf: True,
     # F14: clock-reading programs: equal states at different depths have different futures
     "F14_clock": lambda mf: bool(mf.get("feat", {}).get("clock")),
+    # F13: a corruptible copy is withheld behind an identical older copy (scenarios with a positive corruption rate)
+    "F13_corrupt_behind_identical": lambda mf: bool(mf.get("feat", {}).get("corrupt")),
+    # F10 seen through the hand-off: programs that override pending timers
+    # F15: the two initialisation routes differ when one process holds two timers whose insertion order is not their
+    # firing order: the snapshot orders them by real firing time, the callback route explores both orders
+    "F15_routes_timer_inversion": lambda mf: mf.get("suite") == "ROUTES" and bool(mf.get("snapshot_subset_of_callback"))
+                                              and bool(mf.get("inverted_timers")),
+    "F10_handoff": lambda mf: bool(mf.get("feat", {}).get("override")) and bool(mf.get("feat", {}).get("timers")),
 }
 
 
@@ -1385,6 +1453,34 @@ PROPERTIES = {
                 "and random stream, Full vs Disabled).",
         "assumptions": STD_ASSUMPTIONS + ["no 64-bit hash collision (Partial is modelled as Full)",
                                           "known findings F14 (clock-reading programs) and F10 are excluded by class"],
+    },
+    "C15": {
+        "suites": [suite_handoff, suite_routes],
+        "rule": "HANDOFF scenarios: a random simulator script (2-3 table-driven processes on 1-3 nodes, local messages, "
+                "timers incl. re-armed and cancelled ones, link controls, rates, crashes, recoveries with re-added processes, "
+                "partial stepping so that messages and timers are in flight), then ModelChecker::new on the live System, a "
+                "BFS run, and the continuation of the simulation.  Implementation and extracted model are compared line by "
+                "line: the snapshot state (digests of complete McState incl. pending events with remaining delays, network, "
+                "crash flags), every evaluated state of the exploration, the simulator before and after.  Monitors: no panic "
+                "in ModelChecker::new, crashed set equal, pending events = live queue events.  ROUTES scenarios: the same "
+                "operations performed in the simulator before the snapshot and in the preliminary callback of a checker "
+                "created from the untouched system must visit the same process-visible states.  distinct_nontrivial = "
+                "hand-off scenarios with >= 6 evaluated states, >= 3 continuation observations and timers or failures, plus "
+                "route pairs with >= 4 visited states.",
+        "assumptions": STD_ASSUMPTIONS + SIM_ASSUMPTIONS + [
+            "every located process is installed at the snapshot (after recover_node the processes are re-added): "
+            "C15_recover_without_readd_refuted shows simulator and checker panic alike otherwise"],
+    },
+    "C04": {
+        "suites": [suite_handoff],
+        "rule": "HANDOFF scenarios as C15 (corpus witnesses of the known findings first).  Inclusion monitor: after a run "
+                "that returned Ok with an exhaustive strategy, every process-visible state (process states, outboxes, "
+                "counters; clocks and ids projected away) the CONTINUED simulation passes through, with the draws it "
+                "actually made, must be among the states the checker evaluated.  distinct_nontrivial as C15.",
+        "assumptions": STD_ASSUMPTIONS + SIM_ASSUMPTIONS + [
+            "PARTIAL: the system-level inclusion is monitored on sampled hand-offs, not proved; proved are the timer-order, "
+            "fate and snapshot ingredients listed in Props/C04.v",
+            "known findings F13 (corruptible copy behind an identical older copy) and F10 via hand-off are listed"],
     },
     "C14": {
         "suites": [suite_mc, suite_mc_staged],
